@@ -126,3 +126,99 @@ def _block_action(cf, b, depth):
             return ('goto', lab['name'])
         return _block_action(cf, ss[0], depth + 1)
     return None
+
+
+# ------------------------------------------------------------------ T-ERR
+
+def _mentions_local(e, lid):
+    return any(sx.kind(x) == 'local' and x[2] == lid for x in sx.walk(e))
+
+
+def t_err(rep, rule, prog, f, callees, exceptions=None, config=''):
+    """T-ERR: every call in f to one of `callees` (functions that can return a
+    negative error) has its result checked: used directly in a branch
+    condition or return, or assigned to a local that is compared / returned on
+    every path before it is overwritten or the function exits.
+    exceptions: {(function, callee, ordinal or '*'): reason}"""
+    exceptions = exceptions or {}
+    cf = cfgm.CFG(f)
+    n_sites = 0
+    ordinal = {}
+    for b, i, s in cf.positions():
+        for n in sx.walk(s):
+            if n[0] != 'call' or sx.callee_name(n) not in callees:
+                continue
+            cn = sx.callee_name(n)
+            n_sites += 1
+            k = ordinal.get(cn, 0)
+            ordinal[cn] = k + 1
+            where = '%s:%s' % (f.file, sx.line(n))
+            inst = '%s%s: result of %s #%d' % (config, f.name, cn, k)
+            exc = exceptions.get((f.name, cn, k)) or exceptions.get((f.name, cn, '*'))
+            how = _result_use(cf, f, b, i, s, n)
+            if how[0] == 'checked':
+                rep.holds(rule, inst, where, how[1])
+            elif exc:
+                rep.holds(rule, inst + ' (frozen exception)', where, '%s; %s' % (how[1], exc))
+            else:
+                rep.violated(rule, inst, where, how[1], key='%s:%s:%d' % (f.name, cn, k))
+    return n_sites
+
+
+def _result_use(cf, f, b, i, stmt, call):
+    # directly the branch condition / inside it / returned
+    blk = cf.blocks[b]
+    is_cond = i == len(blk['stmts'])
+    if is_cond:
+        # (ret = f()) < 0  or  f() != OK
+        return ('checked', 'used in the branch condition `%s`' % sx.show(stmt)[:60])
+    if sx.kind(stmt) == 'ret':
+        return ('checked', 'returned to the caller')
+    # find the assignment that receives it
+    tgt = None
+    for n in sx.walk(stmt):
+        if n[0] == 'assign' and any(x is call for x in sx.walk(n[2])):
+            tgt = n
+        if n[0] == 'decls':
+            for d in n[1]:
+                if d[0] == 'decl' and d[3] is not None and any(x is call for x in sx.walk(d[3])):
+                    tgt = ['assign', ['local', d[1], d[2]], d[3]]
+    if tgt is None:
+        if stmt is call:
+            return ('dropped', 'result discarded (call used as a statement)')
+        # used inside a larger expression (argument, arithmetic) without a test
+        for n in sx.walk(stmt):
+            if n[0] == 'cond' and any(x is call for x in sx.walk(n[1])):
+                return ('checked', 'tested by ?:')
+        return ('dropped', 'result used in `%s` without being tested' % sx.show(stmt)[:60])
+    lv = sx.strip_paren(tgt[1])
+    if sx.kind(lv) != 'local':
+        return ('checked', 'stored to %s (caller-visible)' % sx.show(lv))
+    lid = lv[2]
+    # forward search: a test or return of lid on every path before redefinition / exit
+    through = set()
+    redefs = set()
+    for b2 in cf.blocks:
+        blk2 = cf.blocks[b2]
+        for j, s2 in enumerate(blk2['stmts']):
+            if b2 == b and j <= i:
+                continue
+            if sx.kind(s2) == 'ret' and s2[1] is not None and _mentions_local(s2[1], lid):
+                through.add(b2)
+            for m in sx.walk(s2):
+                if m[0] == 'assign' and sx.kind(m[1]) == 'local' and m[1][2] == lid and b2 not in through:
+                    redefs.add(b2)
+                if m[0] == 'cond' and _mentions_local(m[1], lid):
+                    through.add(b2)
+                if m[0] == 'call' and sx.callee_name(m) in ('celt_fatal',):
+                    pass
+        c = cf.cond(b2)
+        if c is not None and _mentions_local(c, lid):
+            # the defining block's own condition counts (it is evaluated after the assignment)
+            through.add(b2)
+    if b in through:
+        return ('checked', 'tested in the same block')
+    targets = (redefs | {cf.exit}) - {b}
+    if cf.must_pass(b, targets, through):
+        return ('checked', 'local %s is tested or returned on every path before being overwritten' % lv[1])
+    return ('unchecked', 'local %s receives the result but some path reaches a redefinition or the exit without testing it' % lv[1])
